@@ -345,8 +345,9 @@ func (self *BinaryConv) unmarshalMap(ctx context.Context, resp http.ResponseSett
 		return wrapError(meta.ErrRead, "parse MapKey Tag error", err)
 	}
 	mapKeyDesc := fd.Key()
-	// every key kind but string (all integer kinds and bool) is printed bare and needs quoting
-	isIntKey := mapKeyDesc.Type() != proto.STRING
+	// every key kind but string (all integer kinds and bool) is printed bare and needs quoting;
+	// an int64 key under Int642String is already quoted by the value writer
+	isIntKey := mapKeyDesc.Type() != proto.STRING && !(mapKeyDesc.Type() == proto.INT64 && self.opts.Int642String)
 	if isIntKey {
 		*out = append(*out, '"')
 	}
